@@ -454,13 +454,19 @@ def collect_variable_lookup(
         # Only the parameters of the condition are its local variables. The remaining arguments of the call
         # must not shadow the closure and the globals which the condition actually reads.
         parameters = inspect.signature(condition).parameters
-        variable_lookup.append(
-            {
-                key: value
-                for key, value in resolved_kwargs.items()
-                if key in parameters
-            }
-        )
+        condition_kwargs = {
+            key: value for key, value in resolved_kwargs.items() if key in parameters
+        }
+
+        # A parameter of the condition which the call does not supply is bound to its default value.
+        for name, parameter in parameters.items():
+            if (
+                name not in condition_kwargs
+                and parameter.default is not inspect.Parameter.empty
+            ):
+                condition_kwargs[name] = parameter.default
+
+        variable_lookup.append(condition_kwargs)
 
     ##
     # Add closure to the lookup
